@@ -126,6 +126,16 @@ def emitter_cases(rd):
     return cases()
 
 
+def unrepresentable_cases():
+    from vf.props import c09
+
+    @st.composite
+    def cases(draw):
+        c = draw(c09.unrepresentable())
+        return {"reader": c["format"], "source": "emitter", "model": None, "text": c["text"], "odd": True}
+    return cases()
+
+
 def enum_corpus(tier, seed):
     files = fama.corpus_files(None if tier == "thorough" else 200)
     if tier != "thorough":
@@ -156,7 +166,7 @@ def _depth(m):
 
 
 def nontrivial(case):
-    if case["source"] == "corpus":
+    if case["source"] == "corpus" or case.get("odd"):
         return True
     m = case["model"]
     if any(_not_depth(c["ast"]) >= 0 for c in m["ctcs"]) or _depth(m) >= 3:
@@ -167,6 +177,8 @@ def nontrivial(case):
 def classes(case):
     if case["source"] == "corpus":
         return {"corpus"}
+    if case.get("odd"):
+        return {"unrepresentable-construct"}
     m = case["model"]
     out = set()
     for c in m["ctcs"]:
@@ -187,6 +199,8 @@ SUBS = [Sub(f"{rd}-writer", check, gen=(lambda tier, rd=rd: writer_cases(rd, 2 i
 SUBS += [Sub(f"{rd}-emitter", check, gen=(lambda tier, rd=rd: emitter_cases(rd)), nontrivial=nontrivial, classes=classes, n=N,
              essential=(NOT_CLASSES if rd != "fama" else []), min_nontrivial=0.0 if rd == "fama" else 0.01)
          for rd in ("uvl", "afm", "glencoe", "featureide", "fama")]
+SUBS.append(Sub("documents-with-unrepresentable-constructs", check, gen=lambda tier: unrepresentable_cases(),
+                nontrivial=nontrivial, classes=classes, n={"quick": 10, "thorough": 200}))
 SUBS.append(Sub("fama-corpus", check, enum=enum_corpus, nontrivial=nontrivial, classes=classes,
                 exhaustive={"quick": False, "thorough": True}))
 
